@@ -1,37 +1,140 @@
 (* Props/C08.v — property C08: storage errors never cause wrong answers or loss of acknowledged writes.
-   Property theorems only.  At the persistence level a write that returned an error is, in the model of
-   Store/Crash.v, either absent (the journal write itself failed; the journal writer's error is sticky, so no
-   later record follows it in that journal) or an unsynced, unacknowledged record that consumed its sequence
-   numbers (only the Sync failed — the behaviour after the "fix:" commit recorded in known_findings.txt), i.e.
-   [PWrite n false]; failed flushes, compactions and manifest writes are retried and leave no committed
-   edit.  Hence the crash-safety theorem covers every such history, with "clean close and reopen" being the
-   strongest admissible image.  PARTIAL: in-memory visibility while running (the errored batch is not in the
-   write buffer) and read-path errors are checked on the implementation only.  A journal write that failed
-   altogether is the step [PSkipSeq n] (nothing durable, sequence numbers consumed). *)
-From GL Require Import Store.Crash Store.CrashProofs.
+   Property theorems only.  The fault model is Store/Faults.v: every persistence step of the L2 model
+   (Store/Crash.v) together with its failing variants — a journal write that fails after a prefix of the
+   record (torn, or whole), a journal Sync that fails, a journal Create that fails in a rotation, failures of
+   table files, a manifest write or Sync that fails in a flush / compaction / transaction commit (the record
+   is in the file or not; manifestFailed; the next commit writes a FRESH manifest), failures of that fresh
+   manifest, failed removals, a transaction whose commit fails and is retried or discarded — each with the
+   result the caller sees.  The state keeps what the FILES hold and what the running DB has COMMITTED IN
+   MEMORY apart, exactly where a failed commit lets them differ.
+   What the theorems cover: persistence (which batches any later crash image, or the clean-close image,
+   recovers) and liveness of the write path after faults.  NOT covered by a theorem (checked by the
+   fault-enumeration oracle on the implementation only, and by C12/C13 for damaged bytes): that every READ
+   while faults are active answers correctly or reports an error. *)
+From GL Require Import Store.Crash Store.CrashProofs Store.Faults Store.FaultsProofs.
 From Coq Require Import Arith Lia.
 
-(* Whatever mix of acknowledged and errored writes, rotations, flushes and commits happened, after any crash —
-   in particular after a clean close, the image that keeps everything — reopening yields every acknowledged
-   batch, only issued batches (errored ones included: their fate settles at reopen), each whole, at most once,
-   in issue order. *)
-Theorem C08_faults_safe_partial : forall ops img, is_image (prun ops) img ->
-  (forall b, In b (p_acked (prun ops)) -> In b (recover img)) /\
-  (forall b, In b (recover img) -> In b (p_issued (prun ops))) /\
-  sorted_b (recover img).
-Proof. exact crash_safe. Qed.
-Print Assumptions C08_faults_safe_partial.
+(* C08_faults_safe.  For EVERY sequence of steps, failing or not (writes, journal-write / sync / create
+   failures, rotations, flushes and compactions whose table or manifest operations fail, fresh manifests that
+   fail, transactions whose commit fails and is retried or discarded, crashes with recovery, clean reopens),
+   for every admissible crash image of the files reached — the clean-close image included, see
+   C08_clean_close_is_image — and for every list L that a recovery may return, namely the model's recovery
+   with any of the errored journal records left out (such a record was never applied to the buffer, so it
+   is lost once its journal file is superseded):
+     - every batch acknowledged to its caller is in L            (acked ⊆ L),
+     - L holds only issued batches — acknowledged ones, and errored ones whose record reached a file: a
+       write reported failed is wholly in or wholly out, batches being the atoms of the model  (L ⊆ issued),
+     - L is strictly ordered by sequence number: no two kept batches share a sequence number (the defect D3)
+       and the kept batches appear in the order of their numbers, which is their issue order. *)
+Theorem C08_faults_safe : forall ops img L, is_image (f_p (frun ops)) img ->
+  sublist L (recover img) -> (forall b, In b (recover img) -> ~ In b L -> In b (f_unknown (frun ops))) ->
+  (forall b, In b (p_acked (f_p (frun ops))) -> In b L) /\
+  (forall b, In b L -> In b (p_issued (f_p (frun ops)))) /\
+  sorted_b L.
+Proof. exact faults_safe. Qed.
+Print Assumptions C08_faults_safe.
 
-(* the clean-close image is admissible *)
-Theorem C08_clean_close_is_image : forall s, pinv s ->
-  is_image s (mk_image s (length (j_recs (p_live s)))
-                         (match p_frozen s with Some f => length (j_recs f) | None => 0 end)
-                         (length (p_man s))).
-Proof. exact clean_close_is_image. Qed.
+(* the invariant behind it — the L2 invariant for the file view AND for the memory view, equal
+   acknowledgement lists, errored records numbered below the current sequence number and never acknowledged —
+   holds after every step, failing or not: the guarantee above continues to hold whatever happens next *)
+Theorem C08_invariant_reachable : forall ops, finv (frun ops).
+Proof. exact finv_run. Qed.
+Print Assumptions C08_invariant_reachable.
+
+Theorem C08_failing_step_preserves_invariant : forall s o, finv s -> finv (fstep s o).
+Proof. exact finv_step. Qed.
+Print Assumptions C08_failing_step_preserves_invariant.
+
+(* heal, close, reopen: the image that keeps every written byte is admissible *)
+Theorem C08_clean_close_is_image : forall ops,
+  let p := f_p (frun ops) in
+  is_image p (mk_image p (length (j_recs (p_live p))) (match p_frozen p with Some f => length (j_recs f) | None => 0%nat end)
+                         (length (p_man p))).
+Proof. exact faults_clean_close_is_image. Qed.
 Print Assumptions C08_clean_close_is_image.
 
-(* The behaviour of the unrepaired code is refuted by a witness: the failed Sync leaves record b in the journal
-   without advancing the sequence number, the next (acknowledged) batch c reuses it, and recovery skips c. *)
+(* reopening never fails because of an earlier fault: in no admissible image does the manifest name a table
+   that a discard removed (the only way a fault makes Open fail in the model; damaged bytes are C12/C13) *)
+Theorem C08_recovery_succeeds : forall ops img, is_image (f_p (frun ops)) img ->
+  frecover (frun ops) img = Some (recover img).
+Proof. exact recovery_succeeds. Qed.
+Print Assumptions C08_recovery_succeeds.
+
+(* what was acknowledged stays acknowledged (so C08_faults_safe at any later point covers it), and a synced
+   write that the model lets succeed is acknowledged *)
+Theorem C08_acked_never_forgotten : forall s ops, finv s -> incl (p_acked (f_p s)) (p_acked (f_p (frun_from s ops))).
+Proof. exact acked_monotone_run. Qed.
+Print Assumptions C08_acked_never_forgotten.
+
+Theorem C08_sync_write_acked : forall s n, wr_ok s = true -> n <> 0 -> fres s (FOk (PWrite n true)) = ROk /\
+  In {| b_seq := p_seq (f_p s) + 1; b_n := n |} (p_acked (f_p (fstep s (FOk (PWrite n true))))).
+Proof. exact sync_write_acked. Qed.
+Print Assumptions C08_sync_write_acked.
+
+(* after the fault is removed the DB is usable: from ANY state, whatever failed before, discarding the open
+   transaction, finishing the pending commit and flush and rotating the journal (what the repaired code does
+   by itself once its storage works) lead to a state that accepts a synced write and acknowledges it *)
+Theorem C08_usable_after_faults : forall s,
+  let s' := frun_from s (removelast heal_ops) in
+  fres s' (FOk (PWrite 1 true)) = ROk /\
+  In {| b_seq := p_seq (f_p s') + 1; b_n := 1 |} (p_acked (f_p (fstep s' (FOk (PWrite 1 true))))).
+Proof. exact usable_write_acked. Qed.
+Print Assumptions C08_usable_after_faults.
+
+(* ---- non-vacuity: a history with every kind of failure ---- *)
+Definition b (s n : N) : batch := {| b_seq := s; b_n := n |}.
+
+Definition ex_fault_ops : list fop :=
+  [FOk (PWrite 2 true);                (* acknowledged *)
+   FJWrite 1 true;                     (* the journal write fails although the whole record reached the file *)
+   FOk (PWrite 1 true);                (* refused: the journal must be rotated first *)
+   FOk PRotate; FOk (PWrite 1 true);   (* acknowledged *)
+   FManFail PFlushEdit true;           (* the flush edit is written, its Sync fails *)
+   FFreshFail;                         (* the fresh manifest fails too *)
+   FOk PFlushEdit;                     (* now it succeeds: one record, snapshot + edit *)
+   FOk PDropFrozen; FOk PRotate; FOk PFlushEdit; FOk PManSync; FOk PDropFrozen;
+   FTxnBegin 2; FTxnCommitFail true;   (* the transaction record reaches the manifest, the commit fails *)
+   FTxnCommitFail false;               (* so does the retry on a fresh manifest *)
+   FTxnDiscard false;                  (* and the fresh manifest of the discard: the tables stay *)
+   FOk (PWrite 1 true);                (* acknowledged, numbered past the transaction *)
+   FJSync 3].                          (* written, Sync fails *)
+
+Example C08_nonvacuous :
+  let s := frun ex_fault_ops in
+  p_acked (f_p s) = [b 1 2; b 4 1; b 7 1] /\
+  f_unknown s = [b 3 1; b 8 3] /\
+  (* the weakest image: unsynced tails lost — the errored first record happens to sit in a table by now *)
+  recover (mk_image (f_p s) 0 0 0) = [b 1 2; b 3 1; b 4 1; b 7 1] /\
+  (* the clean-close image: the failed transaction (its record and tables stayed) and the unsynced record are back *)
+  recover (mk_image (f_p s) 9 9 9) = [b 1 2; b 3 1; b 4 1; b 5 2; b 7 1; b 8 3] /\
+  map (fun k => fres (frun (firstn k ex_fault_ops)) (nth k ex_fault_ops FWriteEarly)) (seq 0 19) =
+    [ROk; RErr; RErr; ROk; ROk; RErr; RErr; ROk; ROk; ROk; ROk; ROk; ROk; ROk; RErr; RErr; ROk; ROk; RErr].
+Proof. repeat split; vm_compute; reflexivity. Qed.
+
+(* the list L of the theorem may leave errored records out: e.g. the real recovery of the weakest image *)
+Example C08_nonvacuous_dropped :
+  let s := frun ex_fault_ops in
+  let L := [b 1 2; b 4 1; b 7 1] in
+  sublist L (recover (mk_image (f_p s) 0 0 0)) /\
+  (forall x, In x (recover (mk_image (f_p s) 0 0 0)) -> ~ In x L -> In x (f_unknown s)).
+Proof.
+  cbn zeta. split.
+  - vm_compute. apply sl_keep, sl_skip, sl_keep, sl_keep, sl_nil.
+  - vm_compute. intros x [<-|[<-|[<-|[<-|[]]]]] Hn; auto; exfalso; apply Hn; auto.
+Qed.
+
+(* a transaction right after an errored write: the live buffer is empty, OpenTransaction does not rotate, the
+   transaction commits; the errored record is numbered below it and is gone *)
+Example C08_txn_after_errored_record :
+  let s := frun [FJSync 2; FOk (PTxnCommit 3); FOk PRotate; FOk (PWrite 1 true); FOk PDropFrozen] in
+  p_acked (f_p s) = [b 3 3; b 6 1] /\ recover (mk_image (f_p s) 0 0 0) = [b 3 3; b 6 1] /\
+  recover (mk_image (f_p s) 9 9 9) = [b 3 3; b 6 1].
+Proof. repeat split; vm_compute; reflexivity. Qed.
+
+(* ---- refuted: the behaviours repaired since (see known_findings.txt), as witnesses by computation ---- *)
+
+(* D3 (repaired 184f2b9): a failed journal Sync left the record in the journal without advancing the
+   sequence number; the next acknowledged batch reused it and recovery skipped that batch. *)
 Definition unfixed_sync_failure (s : pstate) (n : N) : pstate :=
   {| p_live := jappend (p_live s) {| b_seq := p_seq s + 1; b_n := n |} false; p_frozen := p_frozen s;
      p_fedit := p_fedit s; p_fseq := p_fseq s; p_man := p_man s; p_msynced := p_msynced s; p_seq := p_seq s;
@@ -39,13 +142,88 @@ Definition unfixed_sync_failure (s : pstate) (n : N) : pstate :=
 
 Example C08_sync_failure_reuses_seq_refuted :
   let s := pstep (unfixed_sync_failure (pstep p_init (PWrite 1 true)) 2) (PWrite 1 true) in
-  In {| b_seq := 2; b_n := 1 |} (p_acked s) /\
-  recover (mk_image s 9 9 9) = [{| b_seq := 1; b_n := 1 |}; {| b_seq := 2; b_n := 2 |}].
+  In (b 2 1) (p_acked s) /\ recover (mk_image s 9 9 9) = [b 1 1; b 2 2].
 Proof. split; [vm_compute; right; left; reflexivity|vm_compute; reflexivity]. Qed.
 
-(* with the repaired behaviour the same scenario keeps the acknowledged batch *)
 Example C08_sync_failure_fixed :
-  let s := prun [PWrite 1 true; PWrite 2 false; PWrite 1 true] in
-  recover (mk_image s 9 9 9) = [{| b_seq := 1; b_n := 1 |}; {| b_seq := 2; b_n := 2 |}; {| b_seq := 4; b_n := 1 |}] /\
-  p_acked s = [{| b_seq := 1; b_n := 1 |}; {| b_seq := 4; b_n := 1 |}].
+  let s := frun [FOk (PWrite 1 true); FJSync 2; FOk PRotate; FOk (PWrite 1 true)] in
+  recover (mk_image (f_p s) 9 9 9) = [b 1 1; b 2 2; b 4 1] /\ p_acked (f_p s) = [b 1 1; b 4 1].
 Proof. split; vm_compute; reflexivity. Qed.
+
+(* C11-K1 (repaired 253bc87): Discard after a failed commit removed the transaction's tables although its
+   record sat in the manifest; the next Open found the manifest naming missing files. *)
+Definition unfixed_discard (s : fstate) : fstate :=
+  match f_txn s with
+  | Some (n, _) =>
+      {| f_p := f_p s; f_m := f_m s; f_jfail := f_jfail s; f_mfail := f_mfail s; f_pend := f_pend s; f_txn := None;
+         f_unknown := f_unknown s; f_gone := f_gone s ++ [{| b_seq := p_seq (f_m s) + 1; b_n := n |}] |}
+  | None => s
+  end.
+
+Example C08_txn_commit_failure_refuted :
+  let s := unfixed_discard (frun [FOk (PWrite 1 true); FOk PRotate; FOk PFlushEdit; FOk PManSync; FOk PDropFrozen;
+                                  FTxnBegin 2; FTxnCommitFail true]) in
+  frecover s (mk_image (f_p s) 9 9 9) = None /\ p_acked (f_p s) = [b 1 1].
+Proof. split; vm_compute; reflexivity. Qed.
+
+(* with the repaired discard the same history recovers, with or without the transaction, never with a hole *)
+Example C08_txn_commit_failure_fixed :
+  let pre := [FOk (PWrite 1 true); FOk PRotate; FOk PFlushEdit; FOk PManSync; FOk PDropFrozen; FTxnBegin 2; FTxnCommitFail true] in
+  let s1 := frun (pre ++ [FTxnDiscard true]) in
+  let s2 := frun (pre ++ [FTxnDiscard false]) in
+  frecover s1 (mk_image (f_p s1) 9 9 9) = Some [b 1 1] /\ f_gone s1 = [b 2 2] /\
+  frecover s2 (mk_image (f_p s2) 9 9 9) = Some [b 1 1; b 2 2] /\ f_gone s2 = [].
+Proof. repeat split; vm_compute; reflexivity. Qed.
+
+(* F4 (repaired 062aaf9): a failed commit did not consume the transaction's sequence numbers; when its
+   record stayed in the manifest (every fresh manifest failed, the tables were kept) a later acknowledged
+   write reused them and journal recovery skipped it — after a CLEAN close. *)
+Definition unfixed_txn_fail_kept (s : fstate) (n : N) : fstate :=
+  let p := f_p s in
+  let x := {| b_seq := p_seq p + 1; b_n := n |} in
+  let p' := {| p_live := p_live p; p_frozen := p_frozen p; p_fedit := p_fedit p; p_fseq := p_fseq p;
+               p_man := p_man p ++ [{| m_jnum := None; m_seq := Some (p_seq p + n); m_tab := [x] |}];
+               p_msynced := p_msynced p; p_seq := p_seq p; p_issued := p_issued p ++ [x]; p_acked := p_acked p |} in
+  {| f_p := p'; f_m := f_m s; f_jfail := f_jfail s; f_mfail := true; f_pend := true; f_txn := None;
+     f_unknown := f_unknown s; f_gone := f_gone s |}.
+
+Example C08_txn_commit_failure_reuses_seq_refuted :
+  let s := fstep (unfixed_txn_fail_kept (frun [FOk (PWrite 1 true); FOk PRotate; FOk PFlushEdit; FOk PManSync; FOk PDropFrozen]) 2)
+                 (FOk (PWrite 1 true)) in
+  In (b 2 1) (p_acked (f_p s)) /\ recover (mk_image (f_p s) 9 9 9) = [b 1 1; b 2 2].
+Proof. split; [vm_compute; right; left; reflexivity|vm_compute; reflexivity]. Qed.
+
+Example C08_txn_commit_failure_consumes_seq_fixed :
+  let s := frun [FOk (PWrite 1 true); FOk PRotate; FOk PFlushEdit; FOk PManSync; FOk PDropFrozen;
+                 FTxnBegin 2; FTxnCommitFail true; FTxnDiscard false; FOk (PWrite 1 true)] in
+  p_acked (f_p s) = [b 1 1; b 4 1] /\ recover (mk_image (f_p s) 9 9 9) = [b 1 1; b 2 2; b 4 1].
+Proof. split; vm_compute; reflexivity. Qed.
+
+(* F1 (repaired d202791): newMem returned on a failed finish of the old journal after journal.Reset had
+   pointed the journal writer at the new file, leaving db.journalWriter and db.journalFd on the old one:
+   later records went to the new file, Sync to the old; a write acknowledged with Sync was not durable. *)
+Definition unfixed_rotate_switch (p : pstate) : pstate :=
+  {| p_live := {| j_num := j_num (p_live p) + 1; j_recs := []; j_synced := 0 |}; p_frozen := Some (p_live p);
+     p_fedit := false; p_fseq := p_seq p; p_man := p_man p; p_msynced := p_msynced p; p_seq := p_seq p;
+     p_issued := p_issued p; p_acked := p_acked p |}.
+Definition unfixed_split_write (p : pstate) (n : N) : pstate :=
+  let x := {| b_seq := p_seq p + 1; b_n := n |} in
+  {| p_live := jappend (p_live p) x false;                               (* written to the new file *)
+     p_frozen := option_map all_synced (p_frozen p);                     (* the Sync reaches the old one *)
+     p_fedit := p_fedit p; p_fseq := p_fseq p; p_man := p_man p; p_msynced := p_msynced p; p_seq := p_seq p + n;
+     p_issued := p_issued p ++ [x]; p_acked := p_acked p ++ [x] |}.
+
+Example C08_rotate_switch_failure_refuted :
+  let s := unfixed_split_write (unfixed_rotate_switch (pstep p_init (PWrite 1 true))) 1 in
+  p_acked s = [b 1 1; b 2 1] /\ recover (mk_image s 0 0 0) = [b 1 1].
+Proof. split; vm_compute; reflexivity. Qed.
+
+(* F3 (repaired 79a35be): after a failed journal write every later write failed (the journal writer's error
+   is sticky and nothing rotated the journal).  In the model a write attempt in that state changes nothing
+   and fails, however often it is repeated; only the rotation (which the repaired write path now performs
+   itself) brings the DB back. *)
+Example C08_failed_journal_write_needs_rotation :
+  let s := frun [FOk (PWrite 1 true); FJWrite 1 false] in
+  fres s (FOk (PWrite 1 true)) = RErr /\ fstep s (FOk (PWrite 1 true)) = s /\
+  fres (fstep s (FOk PRotate)) (FOk (PWrite 1 true)) = ROk.
+Proof. repeat split; vm_compute; reflexivity. Qed.
